@@ -270,3 +270,48 @@ Proof.
     unfold fm_instantiate in Hfmi. inv_all. apply ensure_ok in Hv. cbn in *. lia. }
   destruct (run_limit ops w Hl) as [_ HFL]. rewrite <- cnt_is_length. apply HFL. exact Hmax.
 Qed.
+
+(* ---------- the configured limit itself never goes down ---------- *)
+Lemma fm_execute_limit_mono w sender funds m s' msgs :
+  fm_execute w sender funds m = Ok (s', msgs) -> fm_max_farms (fm_cfg (w_fm w)) <= fm_max_farms (fm_cfg s').
+Proof.
+  intros H.
+  destruct m as [p|p|fid|a|u|oid dur r|pid|pid lp|pid e|u]; cbn [fm_execute] in H.
+  - apply create_farm_spec in H.
+    destruct H as (ep & expired & live & fee_msgs & st & en & identifier & _ & _ & _ & _ & _ & _ & _ & _ & _ & _ & _ & Hcfg & _). rewrite Hcfg. lia.
+  - apply expand_farm_spec in H.
+    destruct H as (_ & id & f & ep & reward & _ & _ & _ & _ & _ & _ & _ & _ & _ & _ & _ & _ & _ & Hcfg & _). rewrite Hcfg. lia.
+  - apply close_farm_spec in H. destruct H as (_ & f & _ & _ & -> & _). cbn. lia.
+  - apply bind_ok in H. destruct H as [[] [_ H]]. apply bind_ok in H. destruct H as [o [_ H]]. inversion H; subst. cbn. lia.
+  - apply claim_tables in H. destruct H as (_ & _ & Hcfg & _). rewrite Hcfg. lia.
+  - apply create_position_spec in H. destruct H as (_ & lp & recv & identifier & _ & _ & _ & _ & _ & _ & _ & _ & Hcfg & _). rewrite Hcfg. lia.
+  - apply expand_position_spec in H. destruct H as (_ & q & lp & _ & _ & _ & _ & _ & _ & _ & Hcfg & _). rewrite Hcfg. lia.
+  - apply close_position_spec in H. destruct H as (_ & _ & _ & q & _ & _ & _ & _ & Hcfg & _). rewrite Hcfg. lia.
+  - apply withdraw_position_spec in H. destruct H as (_ & q & _ & _ & _ & _ & Hcfg & _). rewrite Hcfg. lia.
+  - apply bind_ok in H. destruct H as [[] [_ H]].
+    unfold fm_update_config in H.
+    apply bind_ok in H. destruct H as [[] [_ H]].
+    apply bind_ok in H. destruct H as [fc [_ H]].
+    apply bind_ok in H. destruct H as [em [_ H]].
+    apply bind_ok in H. destruct H as [pm [_ H]].
+    apply bind_ok in H. destruct H as [mf [Hmf H]].
+    apply bind_ok in H. destruct H as [maxu [_ H]].
+    apply bind_ok in H. destruct H as [minu [_ H]].
+    apply bind_ok in H. destruct H as [ex [_ H]].
+    apply bind_ok in H. destruct H as [pen [_ H]]. inversion H; subst s' msgs; clear H. cbn [fm_cfg fm_max_farms].
+    destruct (u_max_farms u) as [m0|]; [|inversion Hmf; lia].
+    apply bind_ok in Hmf. destruct Hmf as [[] [Hle Hmf]]. apply ensure_ok in Hle. inversion Hmf; subst. lia.
+Qed.
+
+Theorem limit_never_decreases ops : forall w, fm_max_farms (fm_cfg (w_fm w)) <= fm_max_farms (fm_cfg (w_fm (run w ops))).
+Proof.
+  intros w. apply (run_R (fun a b => fm_max_farms (fm_cfg (w_fm a)) <= fm_max_farms (fm_cfg (w_fm b)))).
+  - intros x. lia.
+  - intros a b c H1 H2. lia.
+  - intros x y (_ & _ & _ & _ & _ & _ & Hfm). rewrite Hfm. lia.
+  - intros x t s f m w2 subs H. destruct (handle_fm_state _ _ _ _ _ _ _ H) as [E | (fm & -> & -> & msgs & Hx)].
+    + rewrite E. lia.
+    + eapply fm_execute_limit_mono; eauto.
+  - intros x c id w2 subs H. rewrite (handle_reply_fm_state _ _ _ _ _ H). lia.
+  - intros x b. cbn. lia.
+Qed.
